@@ -26,6 +26,19 @@ ZLIB_ASSUME = [
 ]
 
 PROPS = {
+    'C13': {
+        'tus': [E + 'schema/schema.cpp', E + 'engine_library_dir_utils.cpp'],
+        'functions': [P_ + 'schema::detect_schema', P_ + 'detect_is_database2'],
+        'level': 'proof',
+        'assumptions': [
+            'detect_schema is checked as a slice starting at `switch (version.maj)`: the two SQL statements above it (existence of the Information table; SELECT of the version triple) are dropped and the triple becomes a parameter - that the triple is read correctly is assumed (it is SQL)',
+            'get_column_type (PRAGMA table_info through sqlite_modern_cpp) is external: assumed to return any optional string or throw',
+            'djinterop::util::path_exists (stat) is external: assumed to answer consistently per path; path identity is tracked by a ghost tag (which literal was appended), string contents are abstract',
+            'load_database / engine_storage dispatch on the detected value is not covered (constructs SQL-backed objects)',
+            'the decision table is transcribed from engine_schema.hpp (19 enumerators incl. 3.0.0, which detect_schema accepts and the reference tests load)',
+        ],
+        'explanation': 'Loop-free decision code checked on its full input domain: all of int^3 for the version triple x every column-type answer, and all 2^3 presence combinations of directory / m.db / Database2/m.db; the postcondition is the documented decision table, so any misidentified triple, missing rejection or wrong layout row fails a named ensures.',
+    },
     'C05': {
         'tus': [EDU] + V2 + V1,
         'functions': DEC_PRIMS + [P_ + 'decode_extra', P_ + 'zlib_uncompress'] + V2_DEC + V1_HELP + V1_DEC,
